@@ -75,7 +75,8 @@ def run(ctx):
             broken.append(b)
     strings = gen_strings(ctx)
     audit = ([{"site": "shard", "path": p} for p in HOSTILE + BENIGN] + [{"site": "child", "path": p} for p in HOSTILE_LISTS]
-             + [{"site": "split", "path": p} for p in HOSTILE_SPLIT] + [{"site": "self", "path": p} for p in HOSTILE_LISTS[:2]])
+             + [{"site": "split", "path": p} for p in HOSTILE_SPLIT] + [{"site": "self", "path": p} for p in HOSTILE_LISTS[:2]]
+             + [{"site": "relative_root", "path": "data"}])
     fill = [{"path": p} for p in HOSTILE_SUB + BENIGN_SUB]
     res = common.run_impl("paths_run.py", {"pathlib": strings, "audit": audit, "filler": fill}, timeout=1800)
     # 1. the property on the implementation
@@ -96,7 +97,7 @@ def run(ctx):
             ctx.report(f"reads-outside-root:{c['site']}:{kind}",
                        f"metadata path {r['hostile']!r} at site {c['site']}: files outside the root were opened: {r['outside'][:2]} (stages {r['stages']})",
                        {"mode": "audit", "case": c, "impl": r})
-        if c["path"] in BENIGN and any(v.startswith("raised") for v in r["stages"].values()):
+        if (c["path"] in BENIGN or c["site"] == "relative_root") and any(v.startswith("raised") for v in r["stages"].values()):
             ctx.report("benign-path-rejected", f"harmless path spelling {c['path']} broke {r['stages']}", {"mode": "audit", "case": c, "impl": r})
     for c, r in zip(fill, res["filler"]):
         if r["created_outside"]:
